@@ -119,6 +119,43 @@ func TestVerifC22Collect(t *testing.T) {
 			batches = [][]zoekt.FileMatch{{mk(1, ".go", 1000), mk(2, ".go", 990), mk(3, ".go", 980), mk(4, ".py", 970), mk(5, ".rs", 960)}, {mk(6, ".py", 995)}}
 			opts = &zoekt.SearchOptions{MaxDocDisplayCount: 3}
 		}
+		if i >= 2 && r.Chance(5) {
+			// directed: the shape of the document-limit finding with random sizes, scores and extensions — D files of one
+			// extension, then two files of two further extensions inside the 0.9 window; a later chunk brings a file of the
+			// first novel extension into the top two
+			D := 3 + r.Intn(3)
+			exts := append([]string(nil), vf22Exts...)
+			for k := len(exts) - 1; k > 0; k-- {
+				j := r.Intn(k + 1)
+				exts[k], exts[j] = exts[j], exts[k]
+			}
+			mkf := func(ext string, score int) zoekt.FileMatch {
+				f, _ := g.file(chunkMode, ctx, false)
+				f.FileName = fmt.Sprintf("d/f%d%s", f.RepositoryID, ext)
+				f.Score = float64(score)
+				return f
+			}
+			top := 1000 + r.Intn(200)
+			var first []zoekt.FileMatch
+			for k := 0; k < D; k++ {
+				first = append(first, mkf(exts[0], top-10*k-r.Intn(5)))
+			}
+			low := top - 10*D
+			first = append(first, mkf(exts[1], low-1-r.Intn(3)), mkf(exts[2], low-5-r.Intn(3)))
+			for k := len(first) - 1; k > 0; k-- {
+				j := r.Intn(k + 1)
+				first[k], first[j] = first[j], first[k]
+			}
+			second := []zoekt.FileMatch{mkf(exts[1], top-6-r.Intn(3))}
+			malformed, well, nb, total = false, true, 2, 0
+			batches = [][]zoekt.FileMatch{first, second}
+			for _, b := range batches {
+				for k := range b {
+					total += vf22MatchCount(&b[k], chunkMode)
+				}
+			}
+			opts = &zoekt.SearchOptions{ChunkMatches: chunkMode, MaxDocDisplayCount: D}
+		}
 		inputs := make([][]zoekt.FileMatch, len(batches))
 		for b := range batches {
 			inputs[b] = vf22CopyFiles(batches[b])
